@@ -111,17 +111,22 @@ theorem local_ref_only_table (c : Ctx) (st : St) (fut : List Wire) (f : Nat) (ke
       unbox (f + 1) (.tuple [.int Gen.Handlers.labelLocalRef, key]) c st fut = ⟨.error (Exc.ofErr .keyError), st, fut⟩) ∧
     (∀ s, lookupSlot st.table key = some s →
       unbox (f + 1) (.tuple [.int Gen.Handlers.labelLocalRef, key]) c st fut = ⟨.ok (.obj s.o), st, fut⟩) := by
-  have e1 : pyEqNat (.int Gen.Handlers.labelLocalRef) Gen.Handlers.labelValue = false := by
-    rw [pyEqNat_int]; decide
   have e2 : pyEqNat (.int Gen.Handlers.labelLocalRef) Gen.Handlers.labelTuple = false := by
     rw [pyEqNat_int]; decide
   have e3 : pyEqNat (.int Gen.Handlers.labelLocalRef) Gen.Handlers.labelLocalRef = true := by
     rw [pyEqNat_int]; decide
   constructor
   · intro h
-    simp [unbox, unpack2, iterVal, Handlers.liftE, Bind.bind, Pure.pure, e1, e2, e3, tableGet, h]
+    simp [unbox, resolve, unbox2, unpack2, iterVal, Handlers.liftE, Bind.bind, Pure.pure, e2, e3, tableGet, h]
   · intro s h
-    simp [unbox, unpack2, iterVal, Handlers.liftE, Bind.bind, Pure.pure, e1, e2, e3, tableGet, h]
+    simp [unbox, resolve, unbox2, unpack2, iterVal, Handlers.liftE, Bind.bind, Pure.pure, e2, e3, tableGet, h]
+
+/-- (2) **every identifier of a package is resolved before anything else happens**: the first pass of `_unbox`
+(`_resolve_local_refs`) reads the table and changes nothing — no proxy is created and no request goes to the peer
+(`HANDLE_INSPECT`) until every LOCAL_REF of the package, at any tuple depth, has been found in the table -/
+theorem local_refs_resolved_first (c : Ctx) (f : Nat) (pkg : Val) (st : St) (fut : List Wire) :
+    (resolve f pkg c st fut).st = st ∧ (resolve f pkg c st fut).fut = fut :=
+  resolve_quiet c f pkg st fut
 
 /-- **(5) outcome_total**, per request: whatever the payload, `_dispatch_request` logs the request, then balanced
 activity (the handler's touches; nested requests, each with its own answer), then EXACTLY ONE answer carrying this
